@@ -166,14 +166,14 @@ CLAIMS = {
     "C08": (
         'exploration',
         'exhaustive program x deviation enumeration (ProgX): skeleton programs with every subset of numeric argument positions replaced by variable expressions; template.build(values) vs direct construction compared on canonical snapshots',
-        "3.8k cases: 7 skeleton programs (all waveform classes, delays, phase shifts, EOM with drift correction, DMM, index targeting, XY; 6-12 numeric positions each) x every subset of positions turned into variable expressions (14 kinds: scalar, array item, 2v, v+1, -v, v/2, v**2, abs, sqrt, sin, floor, ceil, round, nested; whole-array variables for interpolation points), every kind at every single position and every kind pair on two positions; each template is built for assignments A, B in the orders A,B,A and B,A,A, after a failed build, and compared with the same calls issued directly on evaluated values (second pass: values handed over as caller-owned arrays edited in place); the template's full snapshot (incl. stored calls) must be unchanged by every build; every subset template is also built on a MappableRegister resolved at build time (any prefix of the program concrete); every ordered pair of 17 expression kinds / 5 waveform classes over the SAME variable and constant as two arguments of one template. Mappable registers: 3 unsorted declared-id orders x every injective mapping of 1-3 ids onto 4 traps x every mapping insertion order x every index: declared order, trap positions, index-based targeting and equality with direct construction on the concrete register. Whole-array variables read through a caller-owned index list which the caller reverses after writing the template. Rounding at exact ties (round half to even) and array literals as operands (scalar x array, array x array, array + array). All operators and functions of parametrized objects (exp, log, log2, cos, tan, tanh, floor-division and modulo both ways, powers, rounding to a decimal), from_max_val constructors, literal boundary values in the calls that follow the first variable (delay 0, zero phase shift, retarget to the current target). Target-less phase shifts on templates whose build places fewer qubits than declared. Non-integral index values (x.5, x.9999999, 0.8999999999999999, negative, out of range) supplied through a variable, an item, a product, a quotient and a sum to target_index / phase_shift_index on concrete and mappable registers: the build resolves them as the direct call does. Templates built while still being written: every skeleton x every position as a plain variable (alone and with the first position) x a build with the other assignment just before each of its calls, on concrete and mappable registers; the EOM controls both beams and the requested off-detuning lies between two options.",
+        "3.8k cases: 7 skeleton programs (all waveform classes, delays, phase shifts, EOM with drift correction, DMM, index targeting, XY; 6-12 numeric positions each) x every subset of positions turned into variable expressions (14 kinds: scalar, array item, 2v, v+1, -v, v/2, v**2, abs, sqrt, sin, floor, ceil, round, nested; whole-array variables for interpolation points), every kind at every single position and every kind pair on two positions; each template is built for assignments A, B in the orders A,B,A and B,A,A, after a failed build, and compared with the same calls issued directly on evaluated values (second pass: values handed over as caller-owned arrays edited in place); the template's full snapshot (incl. stored calls) must be unchanged by every build; every subset template is also built on a MappableRegister resolved at build time (any prefix of the program concrete); every ordered pair of 17 expression kinds / 5 waveform classes over the SAME variable and constant as two arguments of one template. Mappable registers: 3 unsorted declared-id orders x every injective mapping of 1-3 ids onto 4 traps x every mapping insertion order x every index: declared order, trap positions, index-based targeting and equality with direct construction on the concrete register. Whole-array variables read through a caller-owned index list which the caller reverses after writing the template. Rounding at exact ties (round half to even) and array literals as operands (scalar x array, array x array, array + array). All operators and functions of parametrized objects (exp, log, log2, cos, tan, tanh, floor-division and modulo both ways, powers, rounding to a decimal), from_max_val constructors, literal boundary values in the calls that follow the first variable (delay 0, zero phase shift, retarget to the current target). Target-less phase shifts on templates whose build places fewer qubits than declared. Non-integral index values (x.5, x.9999999, 0.8999999999999999, negative, out of range) supplied through a variable, an item, a product, a quotient and a sum to target_index / phase_shift_index on concrete and mappable registers: the build resolves them as the direct call does. Templates built while still being written: every skeleton x every position as a plain variable (alone and with the first position) x a build with the other assignment just before each of its calls, on concrete and mappable registers; the EOM controls both beams and the requested off-detuning lies between two options. Array arguments given as a slice of a longer array variable; a skeleton whose non-parametrized prefix shifts the phase of the last declared id; a non-default interpolator given positionally.",
         'Assignments restricted to those the direct construction accepts; phase-reference entries of unmapped qubits are ignored (unobservable).',
         'DESIGN.md §3 C08',
     ),
     "C04": (
         'exploration',
         'exhaustive program x deviation enumeration (ProgX) through both codecs with a differential oracle on canonical snapshots and an independently compiled schema validator',
-        "1.2k (quick) / ~2k (thorough) programs (incl. a zero-length delay that still waits for the fall time): 5 program families covering every building operation x argument-style deviations (positional / keyword / omitted / explicit default; each alone and pairs) x registers {2D, 3D} x {plain, from a layout, mappable} x devices {inline virtual with EOM+DMM, MockDevice by name, custom physical with / without EOM} x parametrized variants (each numeric position alone and all together as variable expressions) x qubit ids {strings, integers 0..2, integers out of register order: decoded == the program written with str(id)}, plus the shared-operand expression pairs of C08. For each: document valid under the published schema (own validator) , decoding succeeds, device and register equal, decoded snapshot equal (or, when parametrized / mappable, builds for two assignments equal), encode-decode-encode is a fixpoint, measurement and variables equal, and encoding leaves the original's full snapshot (incl. call log) unchanged; abstract and legacy codecs. Custom devices that keep a built-in device's name with other specifications (physical and virtual) must come back with their own specifications. C08's skeleton templates (every expression kind at every position, incl. whole-array arguments combined with array literals) go through both codecs and must build to the same sequences. Every case runs in a freshly forked process; decoding histories (two documents with the same variable names but different sizes / types decoded one after the other) are single cases; parametrized programs x every single and pair of call-style deviations incl. keyword-only constructors; export with default values / default traps; detuning maps on every register kind. Declared channels of the still parametrized decoded sequence (derived from stored calls) equal the template's; built sequences are exported and decoded as well; SLM mask on the device's second DMM. Detuning maps whose traps are given in descending order (given order differs from layout order). Mappable templates are also built, before and after the round trip, with only the first m declared ids mapped. A skeleton with a non-default interpolator given positionally (refused by the abstract codec, kept by the legacy one).",
+        "1.2k (quick) / ~2k (thorough) programs (incl. a zero-length delay that still waits for the fall time): 5 program families covering every building operation x argument-style deviations (positional / keyword / omitted / explicit default; each alone and pairs) x registers {2D, 3D} x {plain, from a layout, mappable} x devices {inline virtual with EOM+DMM, MockDevice by name, custom physical with / without EOM} x parametrized variants (each numeric position alone and all together as variable expressions) x qubit ids {strings, integers 0..2, integers out of register order: decoded == the program written with str(id)}, plus the shared-operand expression pairs of C08. For each: document valid under the published schema (own validator) , decoding succeeds, device and register equal, decoded snapshot equal (or, when parametrized / mappable, builds for two assignments equal), encode-decode-encode is a fixpoint, measurement and variables equal, and encoding leaves the original's full snapshot (incl. call log) unchanged; abstract and legacy codecs. Custom devices that keep a built-in device's name with other specifications (physical and virtual) must come back with their own specifications. C08's skeleton templates (every expression kind at every position, incl. whole-array arguments combined with array literals) go through both codecs and must build to the same sequences. Every case runs in a freshly forked process; decoding histories (two documents with the same variable names but different sizes / types decoded one after the other) are single cases; parametrized programs x every single and pair of call-style deviations incl. keyword-only constructors; export with default values / default traps; detuning maps on every register kind. Declared channels of the still parametrized decoded sequence (derived from stored calls) equal the template's; built sequences are exported and decoded as well; SLM mask on the device's second DMM. Detuning maps whose traps are given in descending order (given order differs from layout order). Mappable templates are also built, before and after the round trip, with only the first m declared ids mapped. A skeleton with a non-default interpolator given positionally (refused by the abstract codec, kept by the legacy one). Slices of array variables as arguments; sequences built on a partial mapping are themselves exported and decoded (known finding: a phase shift on an unmapped id before the first variable makes such a built sequence unexportable).",
         'Channels compared as a name-keyed map. Known finding: numpy.round expressions are not exportable.',
         'DESIGN.md §3 C04',
     ),
